@@ -444,11 +444,7 @@ func (c *evalCtx) ident(name string) SV {
 						return SV{t: o.Type(), term: t}
 					}
 					if enc.E.globalIsStable(g) {
-						if enc.stableGlobals == nil {
-							enc.stableGlobals = map[string]bool{}
-						}
-						enc.stableGlobals[key] = true
-						return SV{t: o.Type(), term: enc.R.heapConst(key, enc.R.sortOf(o.Type()))}
+						return SV{t: o.Type(), term: enc.stableGlobalTerm(g, key, o.Type())}
 					}
 				}
 			}
